@@ -448,7 +448,14 @@ def d5_meta_keys(ctx):
                       key="nSavedChans")
 
 
+def dS_shared(ctx):
+    from sa.common import rule_no_shared_mutation
+    rule_no_shared_mutation(ctx, "DS", ['neuropixel.NP2Converter._ind2save', 'neuropixel.NP2Converter._split2shanks', 'neuropixel.NP2Converter._prepare_files_NP24', 'neuropixel.NP2Converter._prepare_files_NP21', 'neuropixel.NP2Reconstructor._reconstruct', 'neuropixel.NP2Reconstructor._prepare_files'],
+                            'a later window / shank is written from data an earlier one modified')
+
+
 def run(ctx):
+    ctx.run(dS_shared)
     ctx.run(d1_rounding)
     ctx.run(d2_tiling)
     ctx.run(d3_columns)
